@@ -76,6 +76,7 @@ class RunStateBinding(Binding):
             "hw": ("unknown", "live", "safe", "psafe"), "clk": ("run", "stopped"), "msched": (False, True),
             "bad_restore": (None, "psafe", "old", "none"), "cmd": (None,) + tuple(CONTROL), "pend": (None,) + tuple(CONTROL),
             "pend2": (None,) + tuple(CONTROL),
+            "pend3": (None,) + tuple(CONTROL),
             "err": (False, True),
         }
         for name in CONTROL:
@@ -533,7 +534,7 @@ class Explorer:
             raise AnchorError(f"create_system_tags initial values unexpected: {init}")
         d = {"started": False, "paused": False, "holding": False, "stopping": False, "sys": "Stopped", "run_id": None,
              "mstatus": "OK", "prev": None, "cap": "live", "outs": "live", "hw": "unknown", "clk": "run", "msched": False,
-             "bad_restore": None, "cmd": None, "pend": None, "pend2": None, "err": False, "orph": ()}
+             "bad_restore": None, "cmd": None, "pend": None, "pend2": None, "pend3": None, "err": False, "orph": ()}
         for n in CONTROL:
             d[f"if_{n}"] = None
         for var, _ in self.b.snap.values():
@@ -687,16 +688,20 @@ class Explorer:
         d = sd(b)
         out = []
         method_cmds = [n for n in CONTROL if d["msched"] and (d[f"if_{n}"] is None or n in d["orph"])]
-        p, p2 = d["pend"], d.get("pend2")
+        p = d["pend"]
+        arrivals = [x for x in (d["pend"], d.get("pend2"), d.get("pend3")) if x is not None]
         d2 = dict(d)
-        d2["pend"] = None
-        if "pend2" in d2:
-            d2["pend2"] = None
+        for k in ("pend", "pend2", "pend3"):
+            if k in d2:
+                d2[k] = None
         b2 = mk(d2)
         for m in [None] + method_cmds:
-            new = [x for x in (m, p2, p) if x is not None]          # newest first: method request, second user request, first
-            if p is not None and p2 is not None and self.policy.precedes(p, p2):
-                new = [x for x in (m, p, p2) if x is not None]
+            # each arriving request is moved to the front of the executing list (newest first: the method's request of this
+            # tick, then the user's in reverse arrival order) unless the extracted order policy keeps an earlier one before it
+            new: list = []
+            for r in arrivals + ([m] if m is not None else []):
+                front = [x for x in new if self.policy.precedes(x, r)]
+                new = front + [r] + [x for x in new if x not in front]
             early = [n for n in CONTROL if p is not None and n not in new and d2[f"if_{n}"] is not None and n not in d2["orph"]
                      and self.policy.precedes(n, p)]
             cur = [b2]
@@ -747,6 +752,12 @@ class Explorer:
                 if n != d["pend"] and self.accepted(s, n):
                     d2 = dict(d)
                     d2["pend2"] = n
+                    out.append((mk(d2), f"user:{n} (same tick gap)"))
+        elif self.max_pending >= 3 and d.get("pend3") is None:
+            for n in CONTROL:
+                if n not in (d["pend"], d["pend2"]) and self.accepted(s, n):
+                    d2 = dict(d)
+                    d2["pend3"] = n
                     out.append((mk(d2), f"user:{n} (same tick gap)"))
         return out
 
